@@ -57,6 +57,15 @@ def mix(kind, parts, amass):
     return Mat(atoms, density)
 
 
+def same_compound(a, b, rel=1e-12):
+    """Two atom tables describe the same compound: equal species in equal proportions (the formula unit is
+    arbitrary)."""
+    if set(a) != set(b):
+        return False
+    k0 = sorted(a)[0]
+    return all(abs(a[k] * b[k0] - b[k] * a[k0]) <= rel * abs(a[k] * b[k0]) for k in a)
+
+
 def compare_atoms(got, want, amass, rel=1e-9):
     """got, want: {species: count}.  Equality up to one common positive factor, per species.
     Species with a zero count have vanished and are ignored.  Returns None or (what, detail)."""
@@ -247,10 +256,71 @@ def submixtures(node):
     return out
 
 
-def features(node, acc=None):
+def compounds(node, out=None):
+    """All compound texts of a derivation, in reading order."""
+    out = [] if out is None else out
+    t = node[0]
+    if t == "c":
+        out.append(node[1])
+    elif t == "n":
+        compounds(node[1], out)
+    elif t == "p":
+        for v, sp, p in node[2]:
+            compounds(p, out)
+        compounds(node[3], out)
+    else:
+        for it in node[2]:
+            compounds(it[3] if it[0] == "u" else it[1], out)
+    return out
+
+
+def stem(text):
+    return text.split("@")[0]
+
+
+def same_density_map(node):
+    """{text: first text with the same stem} for every compound that occurs with two different density tags
+    (or with and without one): 'SiO2@2.2 ... SiO2@2.65' - forced collision of structure-equal components."""
+    first, out = {}, {}
+    for text in compounds(node):
+        k = stem(text)
+        if k not in first:
+            first[k] = text
+        elif first[k] != text:
+            out[text] = first[k]
+    return out
+
+
+def map_compounds(node, m):
+    t = node[0]
+    if t == "c":
+        return ["c", m.get(node[1], node[1])]
+    if t == "n":
+        return ["n", map_compounds(node[1], m), node[2]]
+    if t == "p":
+        return ["p", node[1], [[v, sp, map_compounds(p, m)] for v, sp, p in node[2]], map_compounds(node[3], m)]
+    return ["q", node[1], [["u", it[1], it[2], map_compounds(it[3], m)] if it[0] == "u"
+                           else ["g", map_compounds(it[1], m), it[2]] for it in node[2]]]
+
+
+def halve(value):
+    """Half of a decimal string, as a decimal string of the grammar (no exponent)."""
+    from decimal import Decimal
+    return format(Decimal(value) / 2, "f")
+
+
+FULL = "percentages-sum-to-100"
+REPEAT = "same-compound-other-density"
+
+
+def features(node, acc=None, top=True):
     """Deviations from the canonical spelling, used to name the cause of a failure."""
     acc = set() if acc is None else acc
     t = node[0]
+    if top and same_density_map(node):
+        acc.add(REPEAT)
+    if t == "p" and percent_class([v for v, sp, p in node[2]]) == "full":
+        acc.add(FULL)
     if t == "c":
         if lead_letter(node[1]):
             acc.add("lead=" + lead_letter(node[1]))
@@ -260,30 +330,32 @@ def features(node, acc=None):
         acc.add("nested")
         if node[2]:
             acc.add("tag")
-        features(node[1], acc)
+        features(node[1], acc, False)
     elif t == "p":
         for i, (v, sp, p) in enumerate(node[2]):
             if i == 0 and sp != CANON_SPELLING[node[1]]:
                 acc.add("first=" + sp)
             if i > 0 and sp != "%":
                 acc.add("later=" + sp)
-            features(p, acc)
-        features(node[3], acc)
+            features(p, acc, False)
+        features(node[3], acc, False)
     elif t == "q":
         for it in node[2]:
             if it[0] == "u":
                 if it[2] not in ("g", "mL", "nm"):
                     acc.add("unit=" + it[2])
-                features(it[3], acc)
+                features(it[3], acc, False)
             else:
                 acc.add("group")
-                features(it[1], acc)
+                features(it[1], acc, False)
     return acc
 
 
 def revert(node, feat):
     """The same derivation with one deviation taken back (still a valid case of the space)."""
     t = node[0]
+    if feat == REPEAT:
+        return map_compounds(node, same_density_map(node))
     if t == "c":
         if feat.startswith("lead=") and lead_letter(node[1]) == feat[5:]:
             return ["c", (leading_count(node[1]) or "") + NEUTRAL_COMPOUND]
@@ -296,7 +368,10 @@ def revert(node, feat):
         return ["n", revert(node[1], feat), None if feat == "tag" else node[2]]
     if t == "p":
         parts = []
+        full = feat == FULL and percent_class([v for v, sp, p in node[2]]) == "full"
         for i, (v, sp, p) in enumerate(node[2]):
+            if full:
+                v = halve(v)
             if i == 0 and feat == "first=" + sp:
                 sp = CANON_SPELLING[node[1]]
             if i > 0 and feat == "later=" + sp:
